@@ -13,6 +13,7 @@ import time
 from fractions import Fraction
 
 from harness import common as C
+from harness import history as H
 from harness import impl
 
 PID = "C08"
@@ -274,6 +275,9 @@ def _dist(torch, model, theta, growth, grid):
         return K.PiecewiseConstantCoalescent(theta)
     if model == "skygrid":
         return K.PiecewiseConstantCoalescentGrid(theta, torch.tensor(grid))
+    if model == "softgrid-exact":
+        # the relaxed skygrid class WITHOUT a temperature is an exact skygrid with its own bookkeeping
+        return K.SoftPiecewiseConstantCoalescentGrid(theta, torch.tensor(grid), None)
     if model == "linear":
         return K.PiecewiseLinearCoalescentGrid(theta, torch.tensor(grid))
     return K.PiecewiseExponentialCoalescentGrid(theta, growth, torch.tensor(grid))
@@ -488,6 +492,15 @@ def property_on_impl(case, base, rng):
             # rows with growth exactly 0 are each class's own (known) defect, reported on its own cases
             if not all(fclose(a, b) for r, (a, b) in enumerate(zip(base, v)) if row_inputs(case, r)[2][0] != 0):
                 bad.append(("same-N-differs", f"ExponentialCoalescent {base} vs one-piece PiecewiseExponentialCoalescentGrid {v}"))
+        if model == "skygrid" and case["grid"]:
+            # the same skygrid evaluated by the relaxed class without a temperature (an exact evaluation with its
+            # own handling of the sampling times): same N(t), same density
+            tied = {x for row in case["coals"] for x in row} & set(case["grid"])
+            if not tied:
+                v = impl_dist(case, model="softgrid-exact")
+                if not all(fclose(a, b) for a, b in zip(base, v)):
+                    bad.append(("same-N-differs", f"PiecewiseConstantCoalescentGrid {base} vs "
+                                f"SoftPiecewiseConstantCoalescentGrid without temperature {v}"))
         if model == "skygrid":
             # a grid refined by extra points carrying the same theta on both sides describes the same N(t)
             g, extra = list(case["grid"]), []
@@ -616,6 +629,40 @@ def run(tier, seed, replay=None):
                     rep.violation(f"C08:model-impl-differ:{c['model']}", what,
                                   dict(case=c, row=r, api=api, float_reference=w,
                                        broken="correspondence M_coalescent vs coalescent.py"), False)
+    # ---- same-object histories of the JSON-built models: theta / growth / GRID assigned, model called again,
+    #      compared with a freshly built model holding the new values
+    t0 = time.time()
+    torch = impl.load()
+    from torchtree.evolution import coalescent as K
+    hrng = random.Random(seed + 23)
+    nhist, hist_found = 0, {}
+    pool = [c for c, o in zip(cases, outs) if not isinstance(o, Exception) and c["mode"] != "both"]
+    hrng.shuffle(pool)
+    for c in pool[:(120 if tier == "quick" else 900)]:
+        cls = getattr(K, CLASS[c["model"]] + "Model")
+        th = c["theta"] if c["mode"] != "single" else c["theta"][0]
+        d = {"id": "coalescent", "type": cls.__name__, "theta": impl.param_json("theta", th),
+             "times": c["tips"] + c["coals"][0], "events": [1] * c["n"] + [0] * (c["n"] - 1)}
+        if c["growth"] is not None:
+            d["growth"] = impl.param_json("growth", c["growth"] if c["mode"] != "single" else c["growth"][0])
+        if c["model"] in ("skygrid", "linear", "pwexp"):
+            if not c["grid"]:
+                continue
+            d["grid"] = impl.param_json("grid", list(c["grid"]))
+        try:
+            obj = H.tracked(cls, d)
+            fs = H.run(obj, lambda o: o().detach().reshape(-1).tolist(), hrng, steps=2)
+        except Exception:
+            continue
+        nhist += 1
+        for f in fs:
+            k = f"C08:history:{CLASS[c['model']]}Model"
+            hist_found.setdefault(k, (k, f"after the history {f['history']} (assigned: {f['assigned']}) the same model object "
+                                         f"returns {f['on_same_object']} but a freshly built one {f['fresh_object']}",
+                                      dict(case=c, history=f)))
+    for f in hist_found.values():
+        rep.violation(*f)
+    rep.timings["histories"] = round(time.time() - t0, 2)
     rep.rule = ("random cases over the six models: n = 2..12 (every fifth case up to 50) quick / 2..50 thorough; "
                 "sampling isochronous / serial / serial with ties; valid coalescent times, full precision or on a "
                 "decimal lattice (ties with sampling times and with each other), internal heights and tips in random "
@@ -626,6 +673,7 @@ def run(tier, seed, replay=None):
                 "JSON-built model call; plus minimal reproductions of known defects.  non-trivial = at least 3 taxa; "
                 "distinct = distinct (case,row)")
     rep.extra = dict(input_distribution=dist, model_undefined=undefined, traces_validated_against_impl=compared,
+                     same_object_histories=nhist,
                      direct_property_checks="order invariance (2 permutations), scaling law (2 factors), all-equal = "
                                             "constant, exponential = one-piece piecewise-exponential, refined "
                                             "skygrid, on every case", tolerance=RTOL)
